@@ -28,7 +28,8 @@ func init() {
 
 // ---- outcome descriptions shared by script, model input and fake backend ----
 type scOutcome struct {
-	kind        int // 0 result, 1 error, 3 lost
+	flags       byte // header flags of an error answer (tracing id / warnings / custom payload before the error code)
+	kind        int  // 0 result, 1 error, 3 lost
 	code        int
 	received    int32
 	blockFor    int32
@@ -91,7 +92,7 @@ func (o scOutcome) backend() fb.Outcome {
 	default:
 		m = &message.ServerError{ErrorMessage: txt}
 	}
-	return fb.Outcome{Kind: fb.ErrMsg, Msg: m}
+	return fb.Outcome{Kind: fb.ErrMsg, Msg: m, MsgFlags: o.flags}
 }
 
 var writeTypes = []string{"SIMPLE", "BATCH", "UNLOGGED_BATCH", "COUNTER", "BATCH_LOG", "CAS", "VIEW", "CDC"}
@@ -123,6 +124,9 @@ func outcomeClasses() []scOutcome {
 func randOutcome(r *hv.Rng) scOutcome {
 	cl := outcomeClasses()
 	o := cl[r.Intn(len(cl))]
+	if o.kind == 1 && r.Intn(3) == 0 {
+		o.flags = hv.Pick(r, []byte{0x02, 0x08, 0x04, 0x0a, 0x0e})
+	}
 	if o.kind == 1 {
 		switch o.code {
 		case 0x1200, 0x1300:
@@ -314,7 +318,7 @@ func (e *retryEnv) request(tok string, kind int, text string, payload map[string
 			} else if g.Opcode == byte(primitive.OpCodeError) {
 				// code and message are read by hand: the reference decoder rejects some valid
 				// error bodies (e.g. WRITE_FAILURE with write type CAS)
-				if code, msg, ok := errCodeAndMessage(g.Body); ok {
+				if code, msg, ok := errCodeAndMessage(stripEnvelope(g.Flags, g.Body)); ok {
 					switch {
 					case strings.HasPrefix(msg, "Proxy exhausted query plan"):
 						reply = hv.L(hv.I(2))
@@ -844,4 +848,58 @@ func sendFailedPhase(ctx *Ctx) {
 		cancel()
 		ctx.Emit(hv.L(hv.I(3), hv.I(int64(sends))), hv.L(hv.I(int64(notified))), fmt.Sprintf("%s failed=%d", note, failed))
 	}
+}
+
+// stripEnvelope removes what precedes the message in a response body: tracing id (flag 0x02), warnings (0x08,
+// a string list), custom payload (0x04, a bytes map) -- in the order the codec library writes them: tracing id, payload, warnings.
+func stripEnvelope(flags byte, b []byte) []byte {
+	if flags&0x02 != 0 {
+		if len(b) < 16 {
+			return nil
+		}
+		b = b[16:]
+	}
+	if flags&0x04 != 0 {
+		if len(b) < 2 {
+			return nil
+		}
+		n := int(b[0])<<8 | int(b[1])
+		b = b[2:]
+		for i := 0; i < n; i++ {
+			if len(b) < 2 {
+				return nil
+			}
+			l := int(b[0])<<8 | int(b[1])
+			if len(b) < 2+l+4 {
+				return nil
+			}
+			b = b[2+l:]
+			vl := int(int32(uint32(b[0])<<24 | uint32(b[1])<<16 | uint32(b[2])<<8 | uint32(b[3])))
+			b = b[4:]
+			if vl > 0 {
+				if len(b) < vl {
+					return nil
+				}
+				b = b[vl:]
+			}
+		}
+	}
+	if flags&0x08 != 0 {
+		if len(b) < 2 {
+			return nil
+		}
+		n := int(b[0])<<8 | int(b[1])
+		b = b[2:]
+		for i := 0; i < n; i++ {
+			if len(b) < 2 {
+				return nil
+			}
+			l := int(b[0])<<8 | int(b[1])
+			if len(b) < 2+l {
+				return nil
+			}
+			b = b[2+l:]
+		}
+	}
+	return b
 }
